@@ -624,10 +624,10 @@ public:
     {
         const Coeff c(Series::find_cf(s, var, 0));
 
-        const Poly p(Series::series_nthroot(Series::pow(s, 2, prec - 1) + 1, 2,
-                                            var, prec - 1));
+        // asinh(s) = integrate(sqrt(1/(1+s**2))*diff(s))
+        const Poly p(Series::pow(s, 2, prec - 1) + 1);
         const Poly res_p(Series::diff(s, var)
-                         * Series::series_invert(p, var, prec - 1));
+                         * Series::series_nthroot(p, -2, var, prec - 1));
 
         if (c == 0) {
             return Series::integrate(res_p, var);
